@@ -59,12 +59,17 @@ def d1_free(facts, rep):
         defs = Defs(fn)
         mail = calls_named(fn, ('addPublicFreeListBlock',))
 
+        old_head = set(fn.n(fn.strip(o['expected'])).get('v') for _, o in cas)     # the CAS's expected argument = previous head
+
         def was_empty(a, truth):
             n = fn.n(fn.strip(a))
-            if n.get('k') != 'binop' or n['op'] != '==':
+            if n.get('k') == 'var' and n.get('v') in old_head:
+                return not truth
+            if n.get('k') != 'binop' or n['op'] not in ('==', '!='):
                 return False
             l, r = fn.n(fn.strip(n['l'])), fn.n(fn.strip(n['r']))
-            return truth and ((l.get('n') == 'localPublicFreeList' and r.get('null')) or (r.get('n') == 'localPublicFreeList' and l.get('null')))
+            hit = (l.get('v') in old_head and l.get('k') == 'var' and r.get('null')) or (r.get('v') in old_head and r.get('k') == 'var' and l.get('null'))
+            return hit and (truth == (n['op'] == '=='))
         we = edges_where(fn, was_empty)
         ok = bool(mail) and bool(we) and all(dominated_by_edges(fn, c[0], we)[0] for c in mail)
         rep.ob('D1', 'K4', fn, 'the block is mailed to its owner exactly when the public list was empty before the push', ok,
